@@ -215,7 +215,7 @@ def run_shard(acc, prop, tier, seed, shard, nshards, **kw):
         acc.count("canary_rev_fired", fired)
     finally:
         srv.close()
-    nw, steps = (10, (140, 220)) if tier == "quick" else (400, (140, 300))
+    nw, steps = (10, (140, 220)) if tier == "quick" else (260, (140, 300))
     run_worlds(acc, PROP, tier, seed, shard, nshards, factory, WEIGHTS, nw, steps, pre_hook=pre_hook)
     # canary for the forward monitor (on a monitor without the query side effects)
     run_worlds(acc, PROP + "canary", tier, seed, shard, 1, factory_canary, WEIGHTS, 1, (80, 80), corruptions=CORR)
